@@ -48,6 +48,9 @@ def _calls(fn, pred):
 def check(ctx, rep):
     from . import c02 as _c02, _share as _sh
     _sh.share(ctx, rep, _c02, ('range.',), 'every integer in -32768..32767 is accepted by Integer.from_int (and nothing else)')
+    from . import c03 as _c03, c10 as _c10
+    _sh.share(ctx, rep, _c03, ('normalise.bring-to-range',), 'a Python float set through the API is converted by Float.from_value: the mantissa is normalised before it is packed, so a value the type holds exactly reads back unchanged')
+    _sh.share(ctx, rep, _c10, ('store.too-long',), 'every string of up to 255 bytes is accepted by StringSpace.store (and nothing longer)')
     sv = ctx.fn(IMPL + ':Implementation.set_variable')
     gv = ctx.fn(IMPL + ':Implementation.get_variable')
     # ---- one conversion, before the paths split --------------------------------------------------------
@@ -143,6 +146,10 @@ def variants(ctx):
     def t(dotted, f):
         return lambda tree: f(mu.find_def(tree, dotted))
     return [
+        Va('string-of-255-refused', 'break', 'pcbasic/basic/values/strings.py',
+           t('StringSpace.store', lambda f: mu.replace_expr(f, mu.text_is('length > 255'), 'length >= 255')), expect='shared.store.too-long'),
+        Va('float-set-without-normalisation', 'break', 'pcbasic/basic/values/numbers.py',
+           t('Float.from_value', lambda f: mu.remove_stmt(f, mu.stmt_has('self._bring_to_range(', ast.Assign))), expect='shared.'),
         Va('conversion-after-split', 'break', IMPL, t('Implementation.set_variable', _conv_scalar_only), expect='set.one-conversion'),
         Va('conversion-forgets-lists', 'break', IMPL,
            t('Implementation._to_basic_type', lambda f: mu.remove_stmt(f, lambda st: isinstance(st, ast.If) and 'isinstance(value, list)' in norm(st.test)) or _drop_first_branch(f)),
